@@ -118,17 +118,17 @@ def showEmit (s : Sys) (e : Emit) : String :=
   | _ =>
     showFile e.page ++ ">" ++ (match href s e with | none => "AssertionError" | some h => showHref h) ++ m
 
-/-- `anchorsOf s`, computed once per written file instead of once per link -/
-def anchorCache (s : Sys) (w : List File) : File → List Name :=
-  let tbl := w.eraseDups.map fun f => (f, anchorsOf s f)
-  fun f => match tbl.find? (fun x => x.1 == f) with
-    | some x => x.2
-    | none => anchorsOf s f
+/-- `anchorsOf s f` read from a table computed once per written file (instead of once per link) -/
+def anchorLookup (s : Sys) (tbl : List (File × List Name)) (f : File) : List Name :=
+  match tbl.find? (fun x => x.1 == f) with
+  | some x => x.2
+  | none => anchorsOf s f
 
 def answer (s : Sys) : String :=
   let es := emits s
   let w := written s
-  let anch := anchorCache s w
+  let tbl := w.eraseDups.map fun f => (f, anchorsOf s f)
+  let anch := anchorLookup s tbl
   let sec (name : String) (items : List String) : String := name ++ " " ++ canon items
   let rows := allRows.map fun r => sec (rowName r) ((es.filter fun e => e.row = r && e.linked).map (showEmit s))
   " | ".intercalate (
